@@ -38,7 +38,8 @@ C_LATER = "and does not impair the storing of later blocks"
 
 KINDS = ["valid-on-head", "valid-on-older-block", "duplicate", "orphan", "bad-merkle", "future-timestamp", "reward-height-mismatch",
          "wrong-signature", "reward-too-high", "timestamp-not-after-parent", "apply-error-missing-output", "wrong-evidence",
-         "stated-height-without-ancestors", "wrong-signature-on-side-branch"]
+         "stated-height-without-ancestors", "wrong-signature-on-side-branch", "orphan-until-its-parent-arrives",
+         "altered-body-under-a-genuine-header"]
 
 
 def _rows(store) -> List[bytes]:
@@ -109,10 +110,16 @@ def delivery(kind: int, conflict: bool = False, served_head: str = "P", twin: bo
         saved_time = rpm.time
         try:
             store.write_blocks_to_disk([W.R, W.P, W.F])
-            lp = ns.make_node(disk=di.DiskInterface(), clock=lambda: now)
+            clk = [now]
+            lp = ns.make_node(disk=di.DiskInterface(), clock=lambda: clk[0])
             cm = lp.chain_manager
-            cm.coinstate = state
-            cm.last_known_valid_coinstate = state
+            # the node's history: an earlier validated state (same blocks, the other tip as head), then the current state
+            # published the way the miner and start-up publish it - through set_coinstate's default arguments
+            base = W.env.cstate.CoinState(state.block_by_hash, state.unspent_transaction_outs_by_hash, state.block_by_height_by_hash,
+                                          state.heads, (W.F if served_head == "P" else W.P).hash())
+            cm.coinstate = base
+            cm.last_known_valid_coinstate = base
+            cm.set_coinstate(state)
             pending = W.make_tx(tok(TX, 41), [(2, 0, 0)], [(1, 2)], pv, tok(TX, 99), None)      # valid at the head: 1 <= v0 (Inv)
             cm.transaction_pool = [pending]
             sent: List[Any] = []
@@ -142,6 +149,29 @@ def delivery(kind: int, conflict: bool = False, served_head: str = "P", twin: bo
             elif name == "orphan":
                 ghost = W.env.block(W.h - 1, tok(BLK, 77), [cb], tok(BLK, 78))
                 blk = W.env.block(W.h, ghost.hash(), txs, tok(BLK, 6), ts=ts, merkle=W.ref_merkle([t.hash() for t in txs]))
+            elif name == "orphan-until-its-parent-arrives":
+                # child of a valid block the node has not seen yet: refused now, acceptable once the parent has arrived
+                cbm = W.env.coinbase(W.h, [dt.Output(1, W.keys[3])], None, data=b"m")
+                mid = W.candidate(state, [cbm], ts, bid=tok(BLK, 11), nonce=5)
+                st_mid = state.add_block_no_validation(mid)
+                cbc = W.env.coinbase(W.h + 1, [dt.Output(1, W.keys[3])], None, data=b"c")
+                saved_h = W.h
+                W.h = saved_h + 1
+                try:
+                    blk = W.candidate(st_mid, [cbc], ts2 if ts2 > ts else ts + 1, parent=mid, height=saved_h + 1, bid=tok(BLK, 6))
+                finally:
+                    W.h = saved_h
+                if not real:
+                    for t in (cbm, cbc):
+                        W.sha256d.preset((t.serialize(),), t.hash())
+            elif name == "altered-body-under-a-genuine-header":
+                # the header (and so the id) of a genuine block, with one output value of its spend changed
+                genuine = W.candidate(state, txs, ts, bid=tok(BLK, 6))
+                spend2 = W.make_tx(None, [(src, 0, 0)], [(ov + 1, 1)], pv, tok(TX, 99), None)
+                blk = dt.Block(genuine.header, [cb, spend2], hash=tok(BLK, 6))
+                if not real:
+                    for t in genuine.transactions:
+                        W.sha256d.preset((t.serialize(),), t.hash())
             elif name == "bad-merkle":
                 blk = W.candidate(state, txs, ts, merkle=tok(0x3E, 9), bid=tok(BLK, 6))
             elif name == "reward-height-mismatch":
@@ -232,6 +262,37 @@ def delivery(kind: int, conflict: bool = False, served_head: str = "P", twin: bo
                 pass
             if cm.coinstate is not st1 or _rows(store) != rows1 or len(sent) != nsent or len(store.write_buffer) != 0:
                 return False
+            # -- a refusal for a reason that has gone away is not remembered ------------------------------------------
+            if name in ("future-timestamp", "orphan-until-its-parent-arrives", "altered-body-under-a-genuine-header"):
+                if name == "future-timestamp":
+                    clk[0] = ts                       # the clock has caught up with the block's timestamp
+                    if not (ts2 <= clk[0] + MAX_FUTURE and pts < ts):
+                        return True
+                    again = blk
+                elif name == "orphan-until-its-parent-arrives":
+                    if blk.timestamp > now + MAX_FUTURE:
+                        return True
+                    try:
+                        other.handle_block_received(hdr, ms.DataMessage(ms.DATA_BLOCK, mid))
+                    except Exception:
+                        return False
+                    if mid.hash() not in cm.coinstate.block_by_hash:
+                        return False
+                    again = blk
+                else:
+                    again = genuine                   # the genuine block with the same id arrives from an honest peer
+                n0 = len(sent)
+                try:
+                    other.handle_block_received(hdr, ms.DataMessage(ms.DATA_BLOCK, again))
+                except Exception:
+                    return False
+                if again.hash() not in cm.coinstate.block_by_hash or again.hash() not in _rows(store) or len(store.write_buffer) != 0:
+                    return False
+                if cm.coinstate.block_by_hash[again.hash()] is not again:
+                    return False
+                if cm.coinstate.current_chain_hash == again.hash() and (len(sent) != n0 + 1 or sent[-1] is not again):
+                    return False
+                return True
             # -- an invalid block arriving next must not undo what was accepted before ----------------------------
             if should_accept:
                 cbq = W.env.coinbase(W.h, [dt.Output(3 * 10 ** 9, W.keys[3])], None, data=b"q")       # reward too high
@@ -294,9 +355,12 @@ def obligations(tier: str, known: List[str]) -> List[Ob]:
                     "stated-height-without-ancestors", "bad-merkle"):
             obs.append(Ob("delivery[%s,spends-the-pending-transaction's-input]" % name, clause + "; " + C_LATER, "delivery",
                           {"kind": k, "conflict": True}, timeout=T))
+    # a block on the other branch that overtakes the served head (reorganisation) is the new head and is relayed
+    obs.append(Ob("delivery[valid-on-head,served-head=sibling-fork]", C_IN + "; " + C_LATER, "delivery",
+                  {"kind": KINDS.index("valid-on-head"), "served_head": "F"}, timeout=T))
     if tier == "thorough":
         for k, name in enumerate(KINDS):
-            if name in ("duplicate",):
+            if name in ("duplicate", "valid-on-head"):
                 continue
             clause = C_IN if name.startswith("valid") else C_OUT
             obs.append(Ob("delivery[%s,served-head=sibling-fork]" % name, clause + "; " + C_LATER, "delivery",
